@@ -851,7 +851,28 @@ namespace simpl
             out.tok("ORACLE_RATE_CONSTANT_DEPENDS_ON_CELL_COUNT");
       std::vector<double> first(oN.y.begin(), oN.y.begin() + ns);
       if (!close(o1.y, first, 1e-9, 1e-13))
-        out.tok("ORACLE_N_IDENTICAL_CELLS_NOT_LIKE_ONE_CELL");
+      {
+        // the error norm of N identical cells equals that of one cell only up to rounding; what a rounding-size
+        // perturbation does to this problem is measured (inputs one ulp away), as in the cfg scenario
+        double natural = 0;
+        Problem pbn = one;
+        for (auto& v : pbn.y0)
+          if (std::isfinite(v))
+            v = std::nextafter(v, std::numeric_limits<double>::infinity());
+        for (auto& v : pbn.k)
+          if (std::isfinite(v))
+            v = std::nextafter(v, std::numeric_limits<double>::infinity());
+        Outcome on = run(m, c, pbn);
+        if (on.error.empty() && on.y.size() == o1.y.size())
+          for (std::size_t q = 0; q < on.y.size(); ++q)
+            if (std::isfinite(on.y[q]) && std::isfinite(o1.y[q]))
+              natural = std::max(natural, std::fabs(on.y[q] - o1.y[q]));
+        bool within = natural > 0;
+        for (std::size_t q = 0; q < ns && within; ++q)
+          if (!(std::fabs(o1.y[q] - first[q]) <= 100.0 * natural) && o1.y[q] != first[q] && !(std::isnan(o1.y[q]) && std::isnan(first[q])))
+            within = false;
+        out.tok(within ? "NOTE_COMPARED_AT_MEASURED_ROUNDING_SENSITIVITY" : "ORACLE_N_IDENTICAL_CELLS_NOT_LIKE_ONE_CELL");
+      }
       // (b) other cells hold other data
       for (std::size_t pos = 0; pos < N; pos += std::max<std::size_t>(1, N - 1))
       {
